@@ -271,6 +271,61 @@ impl Pki {
         Cred { name: name.to_string(), cert, key, not_before: t, not_after: t + 3650 * 86400 }
     }
 
+    /// Self-signed root CA stored as `<stem>.pem` with subject `/O=Verif/CN=<cn>`; with `key_of`
+    /// it reuses that credential's key (same key, other name), otherwise a fresh key is made
+    /// (e.g. same name, other key).
+    pub fn root_as(&self, stem: &str, cn: &str, key_of: Option<&Cred>) -> Cred {
+        let key = match key_of {
+            Some(c) => c.key.clone(),
+            None => self.genkey(stem),
+        };
+        let cert = self.dir.join(format!("{stem}.pem"));
+        let t = now();
+        self.must(&[
+            "req", "-new", "-x509", "-key", key.to_str().unwrap(), "-subj",
+            &format!("/O=Verif/CN={cn}"), "-days", "3650", "-config", "ca.cnf", "-extensions",
+            "v3_root", "-out", cert.to_str().unwrap(),
+        ]);
+        Cred { name: stem.to_string(), cert, key, not_before: t, not_after: t + 3650 * 86400 }
+    }
+
+    /// Serial number of the certificate as upper-case hex (as `openssl x509 -serial` prints it).
+    pub fn serial_hex(&self, c: &Cred) -> String {
+        let out = Command::new("openssl")
+            .args(["x509", "-in", c.cert.to_str().unwrap(), "-noout", "-serial"])
+            .output()
+            .expect("openssl");
+        String::from_utf8_lossy(&out.stdout).trim().trim_start_matches("serial=").to_string()
+    }
+
+    /// DER `OCSPRequest` (no nonce) for the certificate with serial `serial_hex` issued by
+    /// `issuer`: its single `CertID` carries the issuer name / key hashes openssl computes.
+    pub fn ocsp_request_for_serial(&self, issuer: &Cred, serial_hex: &str) -> Option<Vec<u8>> {
+        let q = self.fresh("oqs", "der");
+        let (ok, _) = self.openssl(&[
+            "ocsp", "-issuer", issuer.cert.to_str().unwrap(), "-serial", &format!("0x{serial_hex}"),
+            "-no_nonce", "-reqout", q.to_str().unwrap(),
+        ]);
+        let out = if ok { fs::read(&q).ok() } else { None };
+        let _ = fs::remove_file(&q);
+        out
+    }
+
+    /// DER ECDSA-with-SHA256 signature over `data` with the credential's key.
+    pub fn sign_sha256(&self, signer: &Cred, data: &[u8]) -> Option<Vec<u8>> {
+        let d = self.fresh("tbs", "bin");
+        let s = self.fresh("sig", "bin");
+        fs::write(&d, data).ok()?;
+        let (ok, _) = self.openssl(&[
+            "dgst", "-sha256", "-sign", signer.key.to_str().unwrap(), "-out", s.to_str().unwrap(),
+            d.to_str().unwrap(),
+        ]);
+        let out = if ok { fs::read(&s).ok() } else { None };
+        let _ = fs::remove_file(&d);
+        let _ = fs::remove_file(&s);
+        out
+    }
+
     /// Issue a leaf under `ca` with the extension section `ext` and the exact validity
     /// `[not_before, not_after]` (unix seconds).
     pub fn issue(&self, ca: &Cred, name: &str, ext: &str, not_before: i64, not_after: i64) -> Cred {
